@@ -178,11 +178,8 @@ def notation_sites(py: PyRepo):
 
 
 def enclosing_fn(tree, node):
-    best = None
-    for n in ast.walk(tree):
-        if isinstance(n, ast.FunctionDef) and n.lineno <= node.lineno <= getattr(n, 'end_lineno', n.lineno):
-            best = n
-    return best
+    from ..core.pyfacts import enclosing_def
+    return enclosing_def(tree, node)
 
 
 def _range_key(e):
@@ -289,7 +286,8 @@ def notation_formats(ctx, py: PyRepo):
                 # on a copy of the function with those calls expanded in place
                 from ..core.pynormal import expand_assigned_calls
                 mfuncs = py.modules[mname].functions
-                fn2 = expand_assigned_calls(fn, lambda name: mfuncs.get(name))
+                ldefs = {g.name: g for g in fn.body if isinstance(g, ast.FunctionDef)}      # closures of fn: same names inside
+                fn2 = expand_assigned_calls(fn, lambda name: ldefs.get(name) or mfuncs.get(name))
                 call2 = [c for c in ast.walk(fn2) if isinstance(c, ast.Call) and (c.lineno, c.col_offset) == (call.lineno, call.col_offset)
                          and ast.unparse(c.func) == ast.unparse(call.func)]
                 if len(call2) == 1 and ast.unparse(fn2) != ast.unparse(fn):
